@@ -53,6 +53,102 @@ theorem inflight_le_rdy {conf : Conf} (hconf : 0 ≤ conf.maxRdy) {c : Chan} (h 
   have := h2.2.2.2.1
   omega
 
+/-! ### C03.2, micro-step granularity: the one-message overshoot
+
+The real pump evaluates the guard at the top of its loop (`guard`), then blocks in `select`; a RDY
+decrease / CLS / pause that is stored in between is seen only at the next iteration, so ONE more
+message can be sent (`deliverArmed`: Go's `select` may pick the queue case although
+`ReadyStateChan` is ready too). In the model a successful guard evaluation *arms* the connection
+for exactly one delivery. -/
+
+/-- a micro-step delivery needs an earlier successful guard evaluation … -/
+theorem deliverArmed_needs_armed (conf : Conf) (c : Chan) (k id : Nat) (now : Int) {a : Nat}
+    (h : (step conf c (.deliverArmed k id now)).2 = .msg a) :
+    ∃ cl, findC c.clients k = some cl ∧ cl.armed = true := by
+  simp only [step] at h
+  split at h
+  · cases h
+  · rename_i cl hf
+    split at h
+    · cases h
+    · rename_i ha
+      exact ⟨cl, hf, by simpa using ha⟩
+
+/-- … which it consumes: every delivery disarms the connection (`overshoot_le_one`: at most one
+message per guard evaluation, whatever happened to RDY / pause in between) -/
+theorem overshoot_le_one (conf : Conf) (c : Chan) (k id : Nat) (now : Int) {a : Nat}
+    (h : (step conf c (.deliverArmed k id now)).2 = .msg a ∨ (step conf c (.deliver k id now)).2 = .msg a) :
+    (∀ cl ∈ (step conf c (.deliverArmed k id now)).1.clients, cl.conn = k →
+        (step conf c (.deliverArmed k id now)).2 = .msg a → cl.armed = false) ∧
+    (∀ cl ∈ (step conf c (.deliver k id now)).1.clients, cl.conn = k →
+        (step conf c (.deliver k id now)).2 = .msg a → cl.armed = false) := by
+  clear h
+  have key : ∀ (cl0 : Client), (doDeliver c cl0 k id now).2 = .msg a →
+      ∀ cl ∈ (doDeliver c cl0 k id now).1.clients, cl.conn = k → cl.armed = false := by
+    intro cl0 hd cl hcl hk
+    cases hfe : findE c.msgs id with
+    | none => simp [doDeliver, hfe] at hd
+    | some e =>
+      by_cases hq : isQueued e = true
+      · simp only [doDeliver, hfe, hq, Bool.not_true, Bool.false_eq_true, ↓reduceIte] at hcl
+        obtain ⟨cl1, _, rfl⟩ := mem_updC.1 hcl
+        by_cases h1 : cl1.conn = k
+        · simp [h1]
+        · simp only [h1, ↓reduceIte] at hk
+      · simp [doDeliver, hfe, hq] at hd
+  constructor
+  · intro cl hcl hk hm
+    simp only [step] at hcl hm
+    split at hm
+    · cases hm
+    · split at hm
+      · cases hm
+      · rename_i cl0 hf hna
+        simp only [hf, hna, ↓reduceIte] at hcl
+        exact key cl0 hm cl hcl hk
+  · intro cl hcl hk hm
+    simp only [step] at hcl hm
+    split at hm
+    · cases hm
+    · split at hm
+      · cases hm
+      · rename_i cl0 hf hna
+        simp only [hf, hna, ↓reduceIte] at hcl
+        exact key cl0 hm cl hcl hk
+
+/-- the guard evaluation arms the connection iff `IsReadyForMessages` holds at that moment -/
+theorem guard_arms_iff_ready (conf : Conf) (c : Chan) (k : Nat) {cl : Client} (hf : findC c.clients k = some cl) :
+    ((step conf c (.guard k)).2 = .ok ↔ ready c.paused cl = true) ∧
+    ∀ cl' ∈ (step conf c (.guard k)).1.clients, cl'.conn = k → cl'.armed = ready c.paused cl := by
+  by_cases hr : ready c.paused cl = true
+  · constructor
+    · simp [step, hf, hr]
+    simp only [step, hf, hr, ↓reduceIte]
+    intro cl' hcl' hk
+    obtain ⟨cl1, _, rfl⟩ := mem_updC.1 hcl'
+    by_cases h1 : cl1.conn = k
+    · simp [h1]
+    · simp only [h1, ↓reduceIte] at hk
+  · have hr' : ready c.paused cl = false := by simpa using hr
+    constructor
+    · simp [step, hf, hr']
+    simp only [step, hf, hr', Bool.false_eq_true, ↓reduceIte]
+    intro cl' hcl' hk
+    obtain ⟨cl1, _, rfl⟩ := mem_updC.1 hcl'
+    by_cases h1 : cl1.conn = k
+    · simp [h1]
+    · simp only [h1, ↓reduceIte] at hk
+
+/-- the schedule: guard evaluated with RDY 1, then `RDY 0` is processed, then the select picks the
+queue: message 7 is delivered although RDY is 0 — and a second one is not -/
+def overshootOps : List Op :=
+  [.put 7, .put 8, .addClient 1 60 0, .rdy 1 1, .guard 1, .rdy 1 0, .deliverArmed 1 7 100]
+
+theorem overshoot_schedule_example :
+    (run {} {} overshootOps).clients.map (fun cl => (cl.rdy, cl.inFlight, cl.armed)) = [(0, 1, false)] ∧
+    (step {} (run {} {} overshootOps) (.deliverArmed 1 8 101)).2 = .reject "not-armed" ∧
+    (step {} (run {} {} overshootOps) (.guard 1)).2 = .reject "guard" := by decide
+
 /-- C03.3 `no_rdy_no_msg` — before the first RDY, after `RDY 0` and after CLS the history-derived
 ready count is 0, so by `deliver_needs_guard` nothing is delivered; and CLS is sticky: a later
 RDY is ignored (no `rdySet` event follows a `closed` event of the same connection). -/
